@@ -71,6 +71,9 @@ def sa_bases(R, legacy):
         ("join-owner", False, lambda: start().join(Post.owner)),
         # two-argument join onto an ALIAS of the related entity: the un-aliased table is not joined yet
         ("join-aliased-blog", False, lambda: start().join(sa.orm.aliased(Blog), Post.blog)),
+        # the relationship is joined, but onto an ALIAS / with an extra ON criterion: it is NOT the join a filter over blog/... needs
+        ("join-of-type-alias", False, lambda: start().join(Post.blog.of_type(sa.orm.aliased(Blog)))),
+        ("outerjoin-blog-and", False, lambda: start().join(Post.blog.and_(Blog.title == "b2"), isouter=True)),
         ("outerjoin-owner-where", False, lambda: getattr(start().outerjoin(Post.owner), w)(Post.score >= 0)),
         ("outerjoin-blog", False, lambda: start().outerjoin(Post.blog)),
         ("order-by", True, lambda: start().order_by(Post.title.desc(), Post.id)),
@@ -209,7 +212,14 @@ def check_instance(acc, fam, db):
                     continue
                 same = (got == exp) if ordered else (sorted(got) == sorted(exp))
                 if not same:
-                    acc.violation("%s:rows:%s:%s" % (backend, bname, fk), dict(info, expected=exp[:30], observed=got[:30], base_result=base_ids[:30]))
+                    finding = None
+                    if backend.startswith("sa") and bname in ("join-of-type-alias", "outerjoin-blog-and"):
+                        from checks.C04 import joined_prefixes
+                        if ("blog",) in joined_prefixes("Post", term):
+                            # the base joins Post.blog in its own way (alias / extra ON criterion); the shorthand compares only the
+                            # relationship's name, skips the join the filter needs and the filter's columns bind to the wrong row source
+                            finding = "sa:base-join-of-same-relationship-taken-for-the-filters-join"
+                    acc.violation("%s:rows:%s:%s" % (backend, bname, fk), dict(info, expected=exp[:30], observed=got[:30], base_result=base_ids[:30]), finding=finding)
                     continue
                 tabs = from_tables(sql)
                 dup = sorted({t for t in tabs if tabs.count(t) > 1})
